@@ -251,9 +251,10 @@ def check_emit_sig(ctx, R, classes):
     R.table('SIG', {'%s.%s' % k: sorted(v) for k, v in SIG.items()})
     for cls in classes:
         drains = drain_coroutines(ctx, cls)
-        for mname, fn in cls.methods.items():
-            key = (cls.name, mname)
-            if key not in SIG or cls.module.name not in ('streamz.core', 'streamz.sinks', 'streamz.dask'):
+        for key in [k for k in SIG if k[0] == cls.name]:
+            mname = key[1]
+            fn = cls.find(mname)        # (MRO-resolved: the method may live in a shared private base class)
+            if fn is None or (fn.cls is ctx.model.stream and cls is not ctx.model.stream) or cls.module.name not in ('streamz.core', 'streamz.sinks', 'streamz.dask'):
                 continue
             if cls.module.name == 'streamz.dask' and cls.name not in ('scatter', 'gather', 'map', 'starmap', 'accumulate'):
                 continue
